@@ -139,12 +139,15 @@ func (m *Mutex) Unlock() {
 	s.yield(-1, true)
 }
 
-// RWMutex: writers exclusive, readers shared. Simple, writer-preferring is not modelled
-// (any waiting task re-contends), which is a superset of real behaviours for safety checks.
+// RWMutex: writers exclusive, readers shared, and — as sync.RWMutex documents — a blocked
+// Lock excludes new readers: from the moment a writer has announced itself until it
+// unlocks, RLock waits. (Recursive read locking therefore deadlocks as soon as a writer
+// arrives between the two RLocks, exactly as with the real type.)
 type RWMutex struct {
 	w       Mutex
 	readers int
 	writer  bool
+	pending bool // a writer has announced itself (waiting for the readers to drain, or holding the lock)
 	waiters []*Task
 	epoch   uint64
 }
@@ -153,6 +156,7 @@ type RWMutex struct {
 func (m *RWMutex) simReset() {
 	m.readers = 0
 	m.writer = false
+	m.pending = false
 	m.waiters = nil
 }
 
@@ -191,7 +195,12 @@ func (m *RWMutex) Lock() {
 	}
 	m.touch(s)
 	s.yield(-1, true)
-	for m.writer || m.readers > 0 {
+	for m.pending { // writers queue behind the announced one
+		m.waiters = append(m.waiters, s.cur)
+		s.block("rwmutex(w)", nil)
+	}
+	m.pending = true
+	for m.readers > 0 {
 		m.waiters = append(m.waiters, s.cur)
 		s.block("rwmutex(w)", nil)
 	}
@@ -217,6 +226,7 @@ func (m *RWMutex) Unlock() {
 	}
 	raceRelease(m)
 	m.writer = false
+	m.pending = false
 	m.wakeAll()
 	s.yield(-1, true)
 }
@@ -237,7 +247,7 @@ func (m *RWMutex) RLock() {
 	}
 	m.touch(s)
 	s.yield(-1, true)
-	for m.writer {
+	for m.pending {
 		m.waiters = append(m.waiters, s.cur)
 		s.block("rwmutex(r)", nil)
 	}
